@@ -37,6 +37,25 @@ func Y(point string) {
 	}
 }
 
+// Block / Unblock bracket an operation that may block until another task
+// acts (channel receive or send, select without default, Wait).
+var (
+	Block   func(point string)
+	Unblock func()
+)
+
+func B(point string) {
+	if Block != nil {
+		Block(point)
+	}
+}
+
+func A() {
+	if Unblock != nil {
+		Unblock()
+	}
+}
+
 func L() {
 	if Held != nil {
 		Held(1)
@@ -59,10 +78,11 @@ func Size(n int) int {
 
 // Report says what was instrumented.
 type Report struct {
-	LockSites []string `json:"lock_sites"`
-	SyncSites []string `json:"sync_sites"`
-	SizeSites []string `json:"lru_size_sites"`
-	Files     int      `json:"files_rewritten"`
+	LockSites  []string `json:"lock_sites"`
+	SyncSites  []string `json:"sync_sites"`
+	BlockSites []string `json:"block_sites"`
+	SizeSites  []string `json:"lru_size_sites"`
+	Files      int      `json:"files_rewritten"`
 }
 
 type edit struct {
@@ -188,6 +208,44 @@ func Generate(repo, dir string) (string, *Report, error) {
 						edits = append(edits, edit{cp.Offset, "func() { verifhook.U(); "}, edit{end.Offset, " }()"})
 						continue
 					}
+				}
+				// possibly blocking statements: <-ch, x := <-ch, ch <- v,
+				// select without default, x.Wait()
+				isRecv := func(e ast.Expr) bool {
+					u, ok := e.(*ast.UnaryExpr)
+					return ok && u.Op == token.ARROW
+				}
+				blocking := false
+				switch x := st.(type) {
+				case *ast.ExprStmt:
+					blocking = isRecv(x.X) || isLockCall(x.X, "Wait")
+				case *ast.AssignStmt:
+					blocking = len(x.Rhs) == 1 && isRecv(x.Rhs[0])
+				case *ast.SendStmt:
+					blocking = true
+				case *ast.SelectStmt:
+					hasDefault := false
+					for _, c := range x.Body.List {
+						if cc, ok := c.(*ast.CommClause); ok && cc.Comm == nil {
+							hasDefault = true
+						}
+					}
+					if !hasDefault && len(x.Body.List) > 0 {
+						point := fmt.Sprintf("block:%s:%d", rel, pos.Line)
+						edits = append(edits, edit{pos.Offset, fmt.Sprintf("verifhook.B(%q); ", point)})
+						for _, c := range x.Body.List {
+							cc := c.(*ast.CommClause)
+							edits = append(edits, edit{fset.Position(cc.Colon).Offset + 1, " verifhook.A();"})
+						}
+						rep.BlockSites = append(rep.BlockSites, point)
+						continue
+					}
+				}
+				if blocking {
+					point := fmt.Sprintf("block:%s:%d", rel, pos.Line)
+					edits = append(edits, edit{pos.Offset, fmt.Sprintf("verifhook.B(%q); ", point)}, edit{end.Offset, "; verifhook.A()"})
+					rep.BlockSites = append(rep.BlockSites, point)
+					continue
 				}
 				switch st.(type) {
 				case *ast.ExprStmt, *ast.AssignStmt, *ast.IfStmt, *ast.ReturnStmt, *ast.DeclStmt, *ast.SwitchStmt, *ast.GoStmt:
